@@ -303,6 +303,15 @@ func setup(c *Ctx, im *Impl) *world {
 - work-command:
     worktype: cat
     command: cat
+- work-kubernetes:
+    worktype: kube
+    authmethod: runtime
+    allowruntimeauth: true
+    allowruntimepod: true
+    allowruntimecommand: true
+    allowruntimeparams: true
+    namespace: ns
+    image: img
 `, B.DataDir(), bCrt, bKey, port, B.Sock)
 	Must(B.Start())
 	Must(A.Start())
@@ -782,6 +791,8 @@ func (w *world) history(cf *CaseFile, idx int, withRestart bool) {
 		wt := "cat"
 		if r.Chance(10) && node == "c19b" {
 			wt = "remote" // the target stores the parameters it receives: witness of transmission
+		} else if r.Chance(8) && node == "c19b" {
+			wt = "nosuchtype" // the target answers the transmission with an error that comes back to the client
 		}
 		hasSecret := false
 		for k := range params {
@@ -936,6 +947,10 @@ func runC19(c *Ctx) {
 			break
 		}
 	}
+	if w.fatal == "" {
+		w.kubePhase(cf)
+	}
+	w.scanLogsAndModes()
 	if w.fatal != "" {
 		// the harness lost track of the implementation: never silently pass
 		im.Violate("harness could not complete a history: "+w.fatal, "harness-stuck", nil)
